@@ -776,7 +776,13 @@ pub fn run(prop: &str, thorough: bool) -> i32 {
     let mut r = Runner::new(prop, if thorough { "thorough" } else { "quick" });
     for p in plans(prop, thorough) {
         let lim = Limits { max_depth: p.depth, max_states: if thorough { 30_000_000 } else { 3_000_000 }, max_wall_s: if thorough { 3000.0 } else { 240.0 } };
-        r.run_scenario(&p.sc, lim, &p.required);
+        // the lifecycle and IBC searches are additionally explored by a second, independently written
+        // engine (stateright BFS); both engines must reach exactly the same set of worlds
+        if matches!(prop, "C06" | "C07") || (thorough && prop == "C05") {
+            r.run_scenario_crosschecked(std::sync::Arc::new(p.sc), lim, &p.required);
+        } else {
+            r.run_scenario(&p.sc, lim, &p.required);
+        }
     }
     r.finish()
 }
